@@ -52,6 +52,11 @@ class _Continue(Exception):
     pass
 
 
+class _SymComp(Exception):
+    def __init__(self, seq):
+        self.seq = seq
+
+
 class FnVal:
     """A repository function value (possibly a closure / bound method)."""
 
@@ -479,7 +484,20 @@ class Interp:
         raise Unsupported("import inside function")
 
     def s_ImportFrom(self, st, s, fr):
-        raise Unsupported("import inside function")
+        import importlib
+
+        if s.level:
+            pkg = fr.mod.modname.rsplit(".", s.level)[0] if not fr.mod.relpath.endswith("__init__.py") else fr.mod.modname
+            name = f"{pkg}.{s.module}" if s.module else pkg
+        else:
+            name = s.module
+        m = importlib.import_module(name)
+        for a in s.names:
+            try:
+                v = getattr(m, a.name)
+            except AttributeError:
+                v = importlib.import_module(f"{name}.{a.name}")
+            fr.locals[a.asname or a.name] = v
 
     def s_Break(self, st, s, fr):
         raise _Break()
@@ -726,16 +744,31 @@ class Interp:
 
     def e_Tuple(self, st, e, fr):
         out = []
+        sym_parts = None
         for x in e.elts:
             if isinstance(x, ast.Starred):
                 v = self.iter_view(st, st.force(self.eval(st, x.value, fr)))
+                if isinstance(v, LRef):
+                    v = v.seq
                 n = Q.seq_len(v)
                 if not isinstance(n, int):
-                    raise Unsupported("starred expression of symbolic length")
+                    # symbolic length: the display becomes a concatenation of parts
+                    sym_parts = (sym_parts or []) + [tuple(out), v]
+                    out = []
+                    continue
                 out.extend(Q.seq_get(v, i) for i in range(n))
             else:
                 out.append(self.eval(st, x, fr))
-        return tuple(out)
+        if sym_parts is None:
+            return tuple(out)
+        sym_parts.append(tuple(out))
+        parts = [p for p in sym_parts if not (isinstance(p, tuple) and not p)]
+        r = parts[0]
+        for p in parts[1:]:
+            r = Q.seq_concat(r, p)
+        r = Q.to_sseq(r)
+        r.parts = [q for p in parts for q in (getattr(p, "parts", None) or [p])]
+        return r
 
     def e_List(self, st, e, fr):
         return LRef(self.e_Tuple(st, e, fr))
@@ -1222,7 +1255,7 @@ class Interp:
             seq = self.iter_view(st, st.force(self.eval(st, g.iter, cfr)))
             n = Q.seq_len(seq)
             if not isinstance(n, int):
-                raise Unsupported("comprehension over a sequence of symbolic length")
+                raise _SymComp(seq)
             for i in range(n):
                 self.assign_target(st, g.target, Q.seq_get(seq, i), cfr)
                 if all(self.truth(st, self.eval(st, c, cfr)) for c in g.ifs):
@@ -1231,17 +1264,47 @@ class Interp:
         rec(0)
         return out
 
+    def _sym_comp(self, st, e, fr, seq):
+        """Comprehension `[elt for target in seq]` over a sequence of symbolic length (single `for`,
+        no `if`): a lazily evaluated sequence. Assumes `elt` is pure (no side effects, cannot raise)."""
+        if len(e.generators) != 1 or e.generators[0].ifs:
+            raise Unsupported("comprehension over a sequence of symbolic length (only a single `for` without `if` is modelled)")
+        g = e.generators[0]
+        n = Q.seq_len(seq)
+        names = {x.id for x in ast.walk(g.target) if isinstance(x, ast.Name)}
+        uses_target = any(isinstance(x, ast.Name) and x.id in names for x in ast.walk(e.elt))
+
+        def getter(i):
+            cfr = Frame(fr.fn, fr.mod, parent=fr)
+            cfr.self_obj = fr.self_obj
+            self.assign_target(V.cur(), g.target, Q.seq_get(seq, i), cfr)
+            return self.eval(V.cur(), e.elt, cfr)
+
+        r = SSeq(n, getter, None, None, "comp")
+        if not uses_target:
+            cfr = Frame(fr.fn, fr.mod, parent=fr)
+            cfr.self_obj = fr.self_obj
+            r.const_elt = self.eval(st, e.elt, cfr)
+            r.getter = lambda i, v=r.const_elt: v
+        return r
+
     def e_ListComp(self, st, e, fr):
         r = self.task.comprehension(self, st, e, fr)
         if r is not NotImplemented:
             return r
-        return LRef(tuple(self._comp(st, e, fr, lambda c: self.eval(st, e.elt, c))))
+        try:
+            return LRef(tuple(self._comp(st, e, fr, lambda c: self.eval(st, e.elt, c))))
+        except _SymComp as sc:
+            return LRef(self._sym_comp(st, e, fr, sc.seq))
 
     def e_GeneratorExp(self, st, e, fr):
         r = self.task.comprehension(self, st, e, fr)
         if r is not NotImplemented:
             return r
-        return tuple(self._comp(st, e, fr, lambda c: self.eval(st, e.elt, c)))
+        try:
+            return tuple(self._comp(st, e, fr, lambda c: self.eval(st, e.elt, c)))
+        except _SymComp as sc:
+            return self._sym_comp(st, e, fr, sc.seq)
 
     def e_SetComp(self, st, e, fr):
         return frozenset(self._comp(st, e, fr, lambda c: self.eval(st, e.elt, c)))
